@@ -53,6 +53,8 @@ class LtlAstParserVisitor(LtlParserVisitor):
                 return float(int(str(text).replace('_', ''), 0))
             except ValueError:
                 raise RTAMTException('{} is not a number'.format(text))
+            except OverflowError:
+                raise RTAMTException('{} is too large'.format(text))
 
     def visitExprPredicate(self, ctx):
         child1 = self.visit(ctx.expression(0))
